@@ -5,7 +5,7 @@ import vf
 
 META = dict(
     engine='ByteBuffer.tla',
-    technique='TLA+ spec ByteBuffer.tla model-checked by TLC (plus Apalache: bounds invariant inductive on the counter abstraction ByteBufferAbs.tla for unbounded capacity, refinement checked by TLC); every TLC-generated transition/path replayed on the real byte buffer; recorded random histories validated by TLC (ByteBufferTrace.tla)',
+    technique='TLA+ spec ByteBuffer.tla model-checked by TLC (plus Apalache: bounds invariant inductive on the counter abstraction ByteBufferAbs.tla for unbounded capacity, refinement checked by TLC); every TLC-generated transition/path replayed on the real byte buffer; recorded random histories validated by TLC (ByteBufferTrace.tla); the byte-buffer calls of the repository\'s own test programs, recorded by link-time interposition, validated by TLC (ByteBufferSuite.tla)',
     level='TLC explores every reachable state of the byte-buffer specification for capacities up to the bound and checks the bounds invariant and the FIFO action properties in it; every transition of that state graph, all paths to a fixed depth and seeded walks are executed on the real code (ASan, exact-size blocks) and compared with the prescribed observation; long random histories recorded from the real code are validated step by step by TLC against the same specification.',
     note='Trusted: TLC, the adapter harness/bytebuf.c (projection of size/used/offset/octets), ASan for out-of-block accesses. Operations on a never-set-up buffer are outside the API contract and not exercised.',
 )
@@ -75,6 +75,9 @@ def run(tier):
     rnd = random.Random(vf.seed())
     hs = histories(rnd, 48 if quick else 320, 400 if quick else 1500, 64 if quick else 200)
     vf.trace_flow(v, 'ByteBufferTrace.tla', 'ByteBufferTrace.cfg', 'bytebuf', hs, 'bbtrace')
+    # the repository's own test programs as a further workload: every byte-buffer call they make, directly or through the modules
+    # built on the buffer, recorded by link-time interposition and validated as the action of that name (ByteBufferSuite.tla)
+    vf.suite_flow(v, ('bb',))
     v.cov['rule'] = ('E1: every transition of the TLC state graph of ByteBuffer.tla (sizes 0..MaxSize, operand lengths '
                      '0..size+1, alphabet {1,2}) executed on the real buffer on exact-size heap blocks under ASan, '
                      'plus all paths to the stated depth and random walks; E2: random histories validated by TLC. '
